@@ -3,7 +3,7 @@
    `balg` = the gate algebra at bool; the generator expressions come from
    Gen/SynthGates.v, regenerated from /repo on every run. *)
 From Coq Require Import ZArith List Bool.
-From PyRTL Require Import Netlist.Sem Netlist.WFDefs Pass.BasicGates Pass.BasicGatesProofs Pass.Synth Pass.SynthProofs Pass.SynthStructure.
+From PyRTL Require Import Netlist.Sem Netlist.WFDefs Pass.BasicGates Pass.BasicGatesProofs Pass.Synth Pass.SynthProofs Pass.SynthStructure Pass.SynthHarness Pass.Flatten Pass.FlattenProofs.
 Import ListNotations.
 Open Scope Z_scope.
 
@@ -171,6 +171,35 @@ Print Assumptions C03_const_and_reset_bits.
    C03_reset_refuted : exists rv i, synth_reset rv i <> option_map ... rv  (rv = Some 5, i = 0),
    which made C03_simulation false for a register with a non-zero reset value. *)
 
+(* ---------------- the synthesized block as a netlist under Sem.run ---------------- *)
+
+(* synthesize never indexes a bit that does not exist: every gate expression
+   emitted for a net reads only bits (a, i) with a an argument of that net and
+   i < bitwidth(a)  (in the code: wv_map[(net.args[x], i)] cannot raise KeyError) *)
+Theorem C03_no_dangling_bits : forall nl n,
+  net_synth_ok nl n = true -> arity_ok (nop n) (length (nargs n)) = true ->
+  forallb (gclosed (Qn nl n)) (lower nl n) = true.
+Proof. exact lower_closed. Qed.
+Print Assumptions C03_no_dangling_bits.
+
+(* FULL STATEMENT of C03_simulation: `flatten merge nl` is the synthesized block as
+   a Syntax.netlist (1-bit wires bid w i, one 1-bit net per gate with fresh ids,
+   1-bit registers, memory ports with concat/select re-assembly, merged or
+   per-bit I/O).  Under the reference semantics Sem.run, from the state and the
+   inputs the original testbench describes, on EVERY cycle every wire of the
+   original design equals sum_i bit_i 2^i of its 1-bit wires in the flattened
+   netlist, and (merged I/O) every Output vector has exactly the original value. *)
+Theorem C03_simulation_netlist : forall merge nl regmap memmap inss,
+  ids_okb nl = true -> wfb nl = true -> synth_okb nl = true ->
+  legal_init nl regmap -> Forall (legal_ins nl) inss ->
+  Forall2 (fun v vf => forall x, In x (wires nl) ->
+             v (wname x) = to_Z (map (flat_bit nl vf (wname x)) (seq 0 (wnat nl (wname x))))
+             /\ (merge = true -> is_out x = true -> vf (wname x) = v (wname x)))
+    (fst (run nl 0 (init_state nl 0 regmap memmap) inss))
+    (fst (run (flatten merge nl) 0 (flat_state nl (ginit nl regmap memmap)) (map (flat_ins nl) inss))).
+Proof. intros merge nl regmap memmap inss H1 H2 H3. exact (flatten_simulation merge nl H1 H2 H3 regmap memmap inss). Qed.
+Print Assumptions C03_simulation_netlist.
+
 (* ---------------- interface maps keyed by the original objects ---------------- *)
 
 Theorem C03_maps_keyed_by_original : forall nl merge,
@@ -210,6 +239,15 @@ Definition ex_nl : netlist :=
 
 Example C03_example_hyps : wfb ex_nl = true /\ synth_okb ex_nl = true.
 Proof. vm_compute. split; reflexivity. Qed.
+
+(* the flattened synthesized netlist of the example is well-formed and satisfies
+   the C03 shape predicate (the one evaluated on every real synthesized block),
+   with merged and with per-bit I/O *)
+Example C03_example_flatten_shape :
+  ids_okb ex_nl = true
+  /\ wfb (flatten true ex_nl) = true /\ shapeb true (flatten true ex_nl) = true
+  /\ wfb (flatten false ex_nl) = true /\ shapeb false (flatten false ex_nl) = true.
+Proof. vm_compute. repeat split; reflexivity. Qed.
 
 Definition ex_ins : list (wid -> Z) := [ (fun _ => 3); (fun _ => 7); (fun _ => 0); (fun _ => 6) ].
 Definition ex_mem : list (Z * list (Z * Z)) := [ (0, [(3, 6); (5, 2)]) ].
